@@ -592,7 +592,7 @@ func writeEvidence(spec *propSpec, tier string, seed uint64, a *agg, wall float6
 
 var assumptions = map[string][]string{
 	"cachesim": {
-		"preemption happens only at the yield sites of the verif hooks (before every outermost lock, around every channel hand-off); code between two sites is atomic in simulation",
+		"preemption happens only at the yield sites of the verif hooks (before every outermost lock, right after a task has released its last lock, around every channel hand-off); code between two sites is atomic in simulation",
 		"built with go1.26.8 (testing/synctest), the repository's own toolchain is 1.25.0",
 		"the sync.Pool inside ringBuffer is replaced by a simulator-owned stripe set; the Go scheduler, select choice, wall clock and map iteration order are simulator decisions",
 		"sampling, not enumeration: a clean batch is evidence, not proof",
